@@ -1,1 +1,395 @@
-(* C04 proofs: in progress *)
+(* Proofs for Props/C04.v: operators and built-in functions compute their documented results.
+   All ten statements hold of the model as stated. *)
+From Coq Require Import List String Ascii Bool Arith NArith ZArith Lia.
+From Yae Require Import Base.Sexp Model.Ty Gen.Generated Model.Num Model.Lexer Model.Literal Model.Val Model.Render
+  Model.Builtins Proofs.C18Proofs.
+Import ListNotations.
+Local Open Scope list_scope.
+
+(* ------------------------------------------------------------------------------------------------ *)
+(* The built-in table                                                                                *)
+(* ------------------------------------------------------------------------------------------------ *)
+
+Lemma all_modelled :
+  forallb (fun row => let '(n, ps, r, lz) := row in match classify n ps with Some _ => true | None => false end)
+    builtin_sigs = true.
+Proof. vm_compute. reflexivity. Qed.
+
+(* ------------------------------------------------------------------------------------------------ *)
+(* Small facts                                                                                       *)
+(* ------------------------------------------------------------------------------------------------ *)
+
+Lemma mbind_ret_l {X Y} (x : X) (f : X -> M Y) : mbind (ret x) f = f x.
+Proof. unfold mbind, ret. destruct (f x) as [t o]. reflexivity. Qed.
+
+Lemma existsb_list_eqb h seen : existsb (list_eqb h) seen = true <-> In h seen.
+Proof.
+  rewrite existsb_exists. split.
+  - intros [k [Hin Heq]]. apply list_eqb_eq in Heq. subst k. exact Hin.
+  - intros Hin. exists h. split; [exact Hin|apply list_eqb_refl].
+Qed.
+
+Lemma existsb_keys {X} (k : list N) (s : list (list N * X)) :
+  existsb (fun kx => list_eqb (fst kx) k) s = true <-> In k (map fst s).
+Proof.
+  rewrite existsb_exists, in_map_iff. split.
+  - intros [kx [Hin Heq]]. apply list_eqb_eq in Heq. exists kx. split; assumption.
+  - intros [kx [Heq Hin]]. exists kx. split; [exact Hin|]. rewrite Heq. apply list_eqb_refl.
+Qed.
+
+Lemma NoDup_app_intro {X} (l1 l2 : list X) :
+  NoDup l1 -> NoDup l2 -> (forall a, In a l1 -> ~ In a l2) -> NoDup (l1 ++ l2).
+Proof.
+  induction l1 as [|a l1 IH]; intros H1 H2 Hd; [exact H2|].
+  inversion H1 as [|a' l' Hna Hnd]; subst. simpl. constructor.
+  - rewrite in_app_iff. intros [Hin|Hin]; [exact (Hna Hin)|]. exact (Hd a (or_introl Logic.eq_refl) Hin).
+  - apply IH; [exact Hnd|exact H2|]. intros b Hb. apply Hd. right. exact Hb.
+Qed.
+
+Lemma NoDup_map_filter {X Y} (g : X -> Y) (f : X -> bool) (l : list X) :
+  NoDup (map g l) -> NoDup (map g (filter f l)).
+Proof.
+  induction l as [|a l IH]; intros H; [constructor|].
+  simpl in H. inversion H as [|a' l' Hna Hnd]; subst. simpl.
+  destruct (f a); [|exact (IH Hnd)]. simpl. constructor; [|exact (IH Hnd)].
+  intros Hin. apply Hna. apply in_map_iff in Hin. destruct Hin as [b [Hb Hin]].
+  apply filter_In in Hin. apply in_map_iff. exists b. split; [exact Hb|apply Hin].
+Qed.
+
+Lemma In_keys_pair {X} (k : list N) (s : list (list N * X)) : In k (map fst s) -> exists x, In (k, x) s.
+Proof.
+  intros H. apply in_map_iff in H. destruct H as [[k' x] [Hk Hin]]. simpl in Hk. subst k'. exists x. exact Hin.
+Qed.
+
+(* ------------------------------------------------------------------------------------------------ *)
+(* Set operations                                                                                    *)
+(* ------------------------------------------------------------------------------------------------ *)
+
+Section Sets.
+  Variable ops : numops.
+
+  (* the invariant of valSetOf *)
+  Lemma valset_inv : forall vs seen,
+    NoDup (map fst (valset ops vs seen)) /\
+    (forall h, In h (map fst (valset ops vs seen)) -> ~ In h seen) /\
+    (forall h v, In (h, v) (valset ops vs seen) -> h = render ops v /\ In v vs) /\
+    (forall v, In v vs -> In (render ops v) seen \/ In (render ops v) (map fst (valset ops vs seen))).
+  Proof.
+    induction vs as [|v0 r IH]; intros seen.
+    - simpl. split; [constructor|]. split; [intros h []|]. split; [intros h v []|intros v []].
+    - cbn [valset]. cbv zeta.
+      destruct (existsb (list_eqb (render ops v0)) seen) eqn:Ex.
+      + destruct (IH seen) as (I1 & I2 & I3 & I4).
+        split; [exact I1|]. split; [exact I2|]. split.
+        * intros h v Hin. destruct (I3 h v Hin) as [Hh Hv]. split; [exact Hh|right; exact Hv].
+        * intros v [Hv|Hv]; [|exact (I4 v Hv)]. subst v. left. apply existsb_list_eqb. exact Ex.
+      + destruct (IH (render ops v0 :: seen)) as (I1 & I2 & I3 & I4).
+        assert (~ In (render ops v0) seen) as Hns.
+        { intros Hin. apply existsb_list_eqb in Hin. congruence. }
+        split; [|split; [|split]].
+        * simpl. constructor; [|exact I1]. intros Hin. apply (I2 _ Hin). left. reflexivity.
+        * simpl. intros h [Hh|Hh]; [subst h; exact Hns|]. intros Hin. apply (I2 _ Hh). right. exact Hin.
+        * intros h v [Hin|Hin].
+          { injection Hin as <- <-. split; [reflexivity|left; reflexivity]. }
+          { destruct (I3 h v Hin) as [Hh Hv]. split; [exact Hh|right; exact Hv]. }
+        * intros v [Hv|Hv].
+          { subst v. right. left. reflexivity. }
+          { destruct (I4 v Hv) as [[Hh|Hh]|Hh].
+            - right. left. exact Hh.
+            - left. exact Hh.
+            - right. right. exact Hh. }
+  Qed.
+
+  Lemma valset_nodup vs : NoDup (map fst (valset ops vs [])).
+  Proof. apply valset_inv. Qed.
+
+  Lemma valset_pair vs h v : In (h, v) (valset ops vs []) -> h = render ops v /\ In v vs.
+  Proof. apply valset_inv. Qed.
+
+  Lemma valset_complete vs v : In v vs -> exists w, In (render ops v, w) (valset ops vs []) /\ render ops v = render ops w.
+  Proof.
+    intros Hv. destruct (valset_inv vs []) as (_ & _ & I3 & I4).
+    destruct (I4 v Hv) as [[]|Hk]. apply In_keys_pair in Hk. destruct Hk as [w Hw].
+    exists w. split; [exact Hw|]. apply (I3 _ _ Hw).
+  Qed.
+
+  Lemma keyed_render (s : list (list N * val)) :
+    (forall h v, In (h, v) s -> h = render ops v) -> map (render ops) (map snd s) = map fst s.
+  Proof.
+    induction s as [|[h v] s IH]; intros H; [reflexivity|]. simpl. f_equal.
+    - symmetry. apply H. left. reflexivity.
+    - apply IH. intros h' v' Hin. apply H. right. exact Hin.
+  Qed.
+
+  Lemma keyed_render_filter f vs :
+    map (render ops) (map snd (filter f (valset ops vs []))) = map fst (filter f (valset ops vs [])).
+  Proof.
+    apply keyed_render. intros h v Hin. apply filter_In in Hin. apply (valset_pair vs). apply Hin.
+  Qed.
+
+  Lemma union_spec : forall x y,
+    let u := set_union ops x y in
+    NoDup (map (render ops) u) /\
+    (forall v, In v u -> In v x \/ In v y) /\
+    (forall v, In v x \/ In v y -> exists w, In w u /\ render ops v = render ops w) /\
+    (exists ux uy, u = ux ++ uy /\ (forall v, In v ux -> In v x) /\
+       (forall v, In v uy -> In v y /\ forall w, In w x -> ~ render ops v = render ops w)).
+  Proof.
+    intros x y. cbv zeta. unfold set_union.
+    set (sx := valset ops x []). set (sy := valset ops y []).
+    set (f := fun kv : list N * val => negb (existsb (fun kx : list N * val => list_eqb (fst kx) (fst kv)) sx)).
+    assert (forall v, In v (map snd sx) -> In v x) as Hux.
+    { intros v Hin. apply in_map_iff in Hin. destruct Hin as [[h v'] [Hv Hin]]. simpl in Hv. subst v'.
+      apply (valset_pair x h v Hin). }
+    assert (forall v, In v (map snd (filter f sy)) ->
+                      In v y /\ forall w, In w x -> ~ render ops v = render ops w) as Huy.
+    { intros v Hin. apply in_map_iff in Hin. destruct Hin as [[h v'] [Hv Hin]]. simpl in Hv. subst v'.
+      apply filter_In in Hin. destruct Hin as [Hin Hf].
+      destruct (valset_pair y h v Hin) as [Hh Hvy]. split; [exact Hvy|].
+      intros w Hw Heq. destruct (valset_complete x w Hw) as [w' [Hw' _]].
+      unfold f in Hf. apply negb_true_iff in Hf. simpl in Hf.
+      assert (existsb (fun kx : list N * val => list_eqb (fst kx) h) sx = true) as Ht.
+      { apply existsb_keys. apply in_map_iff. exists (render ops w, w'). split; [simpl; congruence|exact Hw']. }
+      congruence. }
+    split; [|split; [|split]].
+    - rewrite map_app. unfold sx at 1. rewrite (keyed_render (valset ops x [])) by (intros h v Hin; apply (valset_pair x h v Hin)).
+      unfold sy. rewrite keyed_render_filter. apply NoDup_app_intro.
+      + apply valset_nodup.
+      + apply NoDup_map_filter. apply valset_nodup.
+      + intros h Hx Hy. apply in_map_iff in Hy. destruct Hy as [[h' v] [Hh Hin]]. simpl in Hh. subst h'.
+        apply filter_In in Hin. destruct Hin as [_ Hf]. unfold f in Hf. apply negb_true_iff in Hf. simpl in Hf.
+        apply existsb_keys in Hx. fold sx in Hx. congruence.
+    - intros v Hin. apply in_app_iff in Hin. destruct Hin as [Hin|Hin].
+      + left. apply Hux. exact Hin.
+      + right. apply Huy. exact Hin.
+    - intros v [Hv|Hv].
+      + destruct (valset_complete x v Hv) as [w [Hw Heq]]. exists w. split; [|exact Heq].
+        apply in_app_iff. left. apply in_map_iff. exists (render ops v, w). split; [reflexivity|exact Hw].
+      + destruct (valset_complete y v Hv) as [w [Hw Heq]].
+        destruct (existsb (fun kx : list N * val => list_eqb (fst kx) (render ops v)) sx) eqn:Ex.
+        * apply existsb_keys in Ex. apply In_keys_pair in Ex. destruct Ex as [w' Hw'].
+          exists w'. split.
+          { apply in_app_iff. left. apply in_map_iff. exists (render ops v, w'). split; [reflexivity|exact Hw']. }
+          { apply (valset_pair x _ _ Hw'). }
+        * exists w. split; [|exact Heq].
+          apply in_app_iff. right. apply in_map_iff. exists (render ops v, w). split; [reflexivity|].
+          apply filter_In. split; [exact Hw|]. unfold f. simpl. rewrite Ex. reflexivity.
+    - exists (map snd sx), (map snd (filter f sy)). split; [reflexivity|]. split; [exact Hux|exact Huy].
+  Qed.
+
+  Lemma kget_render y h v : kget h (valset ops y []) = Some v -> h = render ops v /\ In v y.
+  Proof. intros H. apply kget_In in H. apply (valset_pair y h v H). Qed.
+
+  Lemma intersect_spec : forall x y,
+    let u := set_intersect ops x y in
+    NoDup (map (render ops) u) /\
+    (forall v, In v u -> In v y /\ exists w, In w x /\ render ops v = render ops w) /\
+    (forall v w, In v x -> In w y -> render ops v = render ops w -> exists z, In z u /\ render ops v = render ops z).
+  Proof.
+    intros x y. cbv zeta. unfold set_intersect.
+    set (sx := valset ops x []). set (sy := valset ops y []).
+    set (F := fun kx : list N * val => match kget (fst kx) sy with Some v => [v] | None => [] end).
+    split; [|split].
+    - assert (forall s, map (render ops) (flat_map F s) =
+                        map fst (filter (fun kx => match kget (fst kx) sy with Some _ => true | None => false end) s)) as E.
+      { induction s as [|[h w] s IH]; [reflexivity|]. cbn [flat_map filter]. rewrite map_app, IH.
+        unfold F at 1. cbn [fst]. destruct (kget h sy) as [v|] eqn:Ek; [|reflexivity].
+        apply kget_render in Ek. destruct Ek as [-> _]. reflexivity. }
+      rewrite E. apply NoDup_map_filter. apply valset_nodup.
+    - intros v Hin. apply in_flat_map in Hin. destruct Hin as [[h w] [Hin Hv]]. unfold F in Hv. cbn [fst] in Hv.
+      destruct (kget h sy) as [v'|] eqn:Ek; [|destruct Hv]. destruct Hv as [Hv|[]]. subst v'.
+      apply kget_render in Ek. destruct Ek as [Hh Hvy]. split; [exact Hvy|].
+      destruct (valset_pair x h w Hin) as [Hh' Hwx]. exists w. split; [exact Hwx|congruence].
+    - intros v w Hv Hw Heq.
+      destruct (valset_complete x v Hv) as [v' [Hv' _]].
+      destruct (valset_complete y w Hw) as [w' [Hw' _]].
+      assert (exists z, kget (render ops v) sy = Some z) as [z Hz].
+      { apply In_keys_kget. apply in_map_iff. exists (render ops w, w'). split; [simpl; congruence|exact Hw']. }
+      exists z. split.
+      + apply in_flat_map. exists (render ops v, v'). split; [exact Hv'|]. unfold F. cbn [fst]. rewrite Hz. left. reflexivity.
+      + apply kget_render in Hz. apply Hz.
+  Qed.
+
+  Lemma diff_spec : forall x y,
+    let u := set_diff ops x y in
+    NoDup (map (render ops) u) /\
+    (forall v, In v u -> In v x /\ forall w, In w y -> ~ render ops v = render ops w) /\
+    (forall v, In v x -> (forall w, In w y -> ~ render ops v = render ops w) -> exists z, In z u /\ render ops v = render ops z).
+  Proof.
+    intros x y. cbv zeta. unfold set_diff.
+    set (sx := valset ops x []). set (sy := valset ops y []).
+    set (f := fun kx : list N * val => negb (existsb (fun ky : list N * val => list_eqb (fst ky) (fst kx)) sy)).
+    split; [|split].
+    - unfold sx. rewrite keyed_render_filter. apply NoDup_map_filter. apply valset_nodup.
+    - intros v Hin. apply in_map_iff in Hin. destruct Hin as [[h v'] [Hv Hin]]. simpl in Hv. subst v'.
+      apply filter_In in Hin. destruct Hin as [Hin Hf].
+      destruct (valset_pair x h v Hin) as [Hh Hvx]. split; [exact Hvx|].
+      intros w Hw Heq. destruct (valset_complete y w Hw) as [w' [Hw' _]].
+      unfold f in Hf. apply negb_true_iff in Hf. simpl in Hf.
+      assert (existsb (fun ky : list N * val => list_eqb (fst ky) h) sy = true) as Ht.
+      { apply existsb_keys. apply in_map_iff. exists (render ops w, w'). split; [simpl; congruence|exact Hw']. }
+      congruence.
+    - intros v Hv Hno. destruct (valset_complete x v Hv) as [z [Hz Heq]]. exists z. split; [|exact Heq].
+      apply in_map_iff. exists (render ops v, z). split; [reflexivity|]. apply filter_In. split; [exact Hz|].
+      unfold f. simpl. apply negb_true_iff.
+      destruct (existsb (fun ky : list N * val => list_eqb (fst ky) (render ops v)) sy) eqn:Ex; [|reflexivity].
+      exfalso. apply existsb_keys in Ex. apply In_keys_pair in Ex. destruct Ex as [w Hw].
+      destruct (valset_pair y _ _ Hw) as [Hh Hwy]. exact (Hno w Hwy Hh).
+  Qed.
+End Sets.
+
+(* ------------------------------------------------------------------------------------------------ *)
+(* get / isset                                                                                       *)
+(* ------------------------------------------------------------------------------------------------ *)
+
+Section Get.
+  Variable ops : numops.
+  Variable orc : oracles.
+
+  Lemma get_list_spec : forall t vs i d,
+    bsem ops orc BGetList [VList t vs; VNum i; d] =
+    ret (let k := to_i64 ops i in
+         if (Z.leb 0 k && Z.ltb k (Z.of_nat (len vs)))%bool then nth (Z.to_nat k) vs d else d).
+  Proof.
+    intros t vs i d. unfold bsem, as_list, as_num. rewrite !mbind_ret_l. cbv zeta.
+    unfold len.
+    destruct (Z.ltb_spec (to_i64 ops i) 0) as [L|L]; destruct (Z.leb_spec 0 (to_i64 ops i)) as [L'|L']; try lia;
+      cbn [orb andb]; [reflexivity|].
+    destruct (Z.leb_spec (Z.of_nat (List.length vs)) (to_i64 ops i)) as [G|G];
+      destruct (Z.ltb_spec (to_i64 ops i) (Z.of_nat (List.length vs))) as [G'|G']; try lia; [reflexivity|].
+    rewrite (nth_error_nth' vs d) by lia. reflexivity.
+  Qed.
+
+  Lemma get_map_spec : forall t kvs k d kk,
+    key_of ops k = ([], OVal kk) ->
+    bsem ops orc BGetMap [VMap t kvs; k; d] = ret (match kget kk kvs with Some v => v | None => d end) /\
+    bsem ops orc BIsset [VMap t kvs; k] = ret (VBool (match kget kk kvs with Some _ => true | None => false end)).
+  Proof.
+    intros t kvs k d kk Hk. unfold bsem, as_map. rewrite !mbind_ret_l. rewrite Hk.
+    change (@pair (list event) (outcome (list N)) [] (OVal kk)) with (ret kk). rewrite !mbind_ret_l.
+    split; [|reflexivity]. destruct (kget kk kvs); reflexivity.
+  Qed.
+End Get.
+
+(* ------------------------------------------------------------------------------------------------ *)
+(* comparisons                                                                                       *)
+(* ------------------------------------------------------------------------------------------------ *)
+
+Section Cmp.
+  Variable ops : numops.
+
+  Lemma cmp_laws : forall x y,
+    num_ne ops x y = fle ops (eps ops) (fabs ops (fsub ops x y)) /\
+    num_lt ops x y = (flt ops x y && num_ne ops x y)%bool /\
+    num_gt ops x y = (flt ops y x && num_ne ops x y)%bool /\
+    num_le ops x y = (fle ops x y || num_eq ops x y)%bool /\
+    num_ge ops x y = (fle ops y x || num_eq ops x y)%bool.
+  Proof. intros x y. repeat split. Qed.
+
+  Lemma trichotomy : forall x y,
+    (flt ops x y = true -> flt ops y x = false) ->
+    (flt ops x y = false -> flt ops y x = false -> num_eq ops x y = true) ->
+    (num_eq ops x y = negb (num_ne ops x y)) ->
+    (num_lt ops x y = true /\ num_eq ops x y = false /\ num_gt ops x y = false) \/
+    (num_lt ops x y = false /\ num_eq ops x y = true /\ num_gt ops x y = false) \/
+    (num_lt ops x y = false /\ num_eq ops x y = false /\ num_gt ops x y = true).
+  Proof.
+    intros x y H1 H2 H3. unfold num_lt, num_gt. rewrite H3 in *.
+    destruct (num_ne ops x y); cbn [negb] in *.
+    - destruct (flt ops x y) eqn:Exy.
+      + left. rewrite (H1 Logic.eq_refl). auto.
+      + destruct (flt ops y x) eqn:Eyx.
+        * right. right. auto.
+        * specialize (H2 Logic.eq_refl Logic.eq_refl). discriminate H2.
+    - right. left. rewrite !andb_false_r. auto.
+  Qed.
+End Cmp.
+
+(* ------------------------------------------------------------------------------------------------ *)
+(* len on strings                                                                                    *)
+(* ------------------------------------------------------------------------------------------------ *)
+
+Section Utf8.
+  Local Open Scope N_scope.
+  Local Ltac Zify.zify_post_hook ::= Z.to_euclidean_division_equations.
+
+  Ltac nbx :=
+    match goal with
+    | |- context [N.eqb ?a ?b] => destruct (N.eqb_spec a b)
+    | |- context [N.ltb ?a ?b] => destruct (N.ltb_spec a b)
+    | |- context [N.leb ?a ?b] => destruct (N.leb_spec a b)
+    end; cbn [andb orb]; cbv beta iota; try lia.
+
+  (* DecodeRune undoes EncodeRune on scalar values, whatever follows *)
+  Lemma decode_encode c rest : c < 1114112 -> ~ (55296 <= c <= 57343) ->
+    utf8_decode (utf8_encode c ++ rest) = (c, List.length (utf8_encode c)).
+  Proof.
+    intros H1 H2.
+    destruct (N.ltb_spec c 128) as [L1|L1]; [|destruct (N.ltb_spec c 2048) as [L2|L2]; [|destruct (N.ltb_spec c 65536) as [L3|L3]]].
+    - rewrite enc1 by lia. cbn [app List.length]. unfold utf8_decode. repeat nbx. reflexivity.
+    - rewrite enc2 by lia. cbn [app List.length].
+      remember (c / 64) as a eqn:Ea. remember (c mod 64) as b eqn:Eb.
+      assert (c = a * 64 + b /\ b < 64) as [Hc Hb] by lia. clear Ea Eb.
+      unfold utf8_decode, cont. repeat nbx. f_equal. lia.
+    - rewrite enc3 by lia. cbn [app List.length].
+      remember (c / 4096) as a eqn:Ea. remember ((c / 64) mod 64) as b eqn:Eb. remember (c mod 64) as d eqn:Ed.
+      assert (c = a * 4096 + b * 64 + d /\ b < 64 /\ d < 64) as (Hc & Hb & Hd) by lia. clear Ea Eb Ed.
+      unfold utf8_decode, cont. repeat nbx. all: f_equal; lia.
+    - rewrite enc4 by lia. cbn [app List.length].
+      remember (c / 262144) as a eqn:Ea. remember ((c / 4096) mod 64) as b eqn:Eb.
+      remember ((c / 64) mod 64) as d eqn:Ed. remember (c mod 64) as e eqn:Ee.
+      assert (c = a * 262144 + b * 4096 + d * 64 + e /\ b < 64 /\ d < 64 /\ e < 64) as (Hc & Hb & Hd & He) by lia.
+      clear Ea Eb Ed Ee.
+      unfold utf8_decode, cont. repeat nbx. all: f_equal; lia.
+  Qed.
+
+  Lemma encode_nonempty c : exists b0 t, utf8_encode c = b0 :: t.
+  Proof. unfold utf8_encode. cbv zeta. repeat nbx; eexists; eexists; reflexivity. Qed.
+
+  Lemma decode_all_encode : forall rs f,
+    Forall (fun c => c < 1114112 /\ ~ (55296 <= c <= 57343)) rs ->
+    (List.length (flat_map utf8_encode rs) <= f)%nat ->
+    List.length (decode_all f (flat_map utf8_encode rs)) = List.length rs.
+  Proof.
+    induction rs as [|c rs IH]; intros f Hall Hf.
+    - destruct f; reflexivity.
+    - inversion Hall as [|c' rs' [Hc1 Hc2] Hrs]; subst.
+      cbn [flat_map] in *.
+      pose proof (decode_encode c (flat_map utf8_encode rs) Hc1 Hc2) as Hdec.
+      destruct (encode_nonempty c) as [b0 [t Eenc]].
+      rewrite app_length in Hf.
+      assert (skipn (List.length (utf8_encode c)) (utf8_encode c ++ flat_map utf8_encode rs) = flat_map utf8_encode rs) as Hskip.
+      { rewrite skipn_app, Nat.sub_diag, skipn_all. reflexivity. }
+      rewrite Eenc in *. cbn [app List.length] in *.
+      destruct f as [|f]; [lia|].
+      cbn [decode_all]. rewrite Hdec. cbn [List.length]. f_equal.
+      rewrite Hskip. apply IH; [exact Hrs|lia].
+  Qed.
+
+  Lemma len_runes : forall rs,
+    Forall (fun c => (c < 1114112)%N /\ ~ (55296 <= c <= 57343)%N) rs ->
+    rune_count (flat_map utf8_encode rs) = N.of_nat (len rs).
+  Proof.
+    intros rs Hall. unfold rune_count, runes_of, len. f_equal.
+    apply decode_all_encode; [exact Hall|apply Nat.le_refl].
+  Qed.
+End Utf8.
+
+(* ------------------------------------------------------------------------------------------------ *)
+(* radix literals                                                                                    *)
+(* ------------------------------------------------------------------------------------------------ *)
+
+Lemma radix_value : forall base ds d,
+  radix_val base (ds ++ [d]) = (radix_val base ds * base + hex_val d)%N.
+Proof. intros base ds d. unfold radix_val. rewrite fold_left_app. reflexivity. Qed.
+
+Print Assumptions all_modelled.
+Print Assumptions union_spec.
+Print Assumptions intersect_spec.
+Print Assumptions diff_spec.
+Print Assumptions get_list_spec.
+Print Assumptions get_map_spec.
+Print Assumptions cmp_laws.
+Print Assumptions trichotomy.
+Print Assumptions len_runes.
+Print Assumptions radix_value.
